@@ -46,7 +46,8 @@ TRUSTED = [
 ASSUMPTIONS = ["exact complex arithmetic in the theorems; implementation compared to 1e-9 (tie) and 1e-7 (oracle)"]
 RULE = ("tie: (class, preserve, n, t, vector) whose per-level intermediates were diffed against the Lean model; oracle: "
         "(class, preserve, n, t, vector family) whose Operator column t (and columns < t) was compared with the ideal; "
-        "non-trivial = n >= 2")
+        "non-trivial = n >= 2; diversity cases additionally carry the FORM of the input (element type of the vector, form of the "
+        "options, way the gate object / static helper is used) in their key")
 DRIVER = "Drivers/C12.lean"
 
 FAMILIES = ("complex", "real", "zeros", "zeroblock", "basis", "supp", "suppz", "supp_t0", "product")
@@ -161,12 +162,16 @@ def get_class(name):
 # tracing the real class (add-only wrappers on the instance; /repo is not edited)
 # ------------------------------------------------------------------------------------------------
 
-def trace(cls_name, v, t, preserve):
+def trace(cls_name, v, t, preserve, build=None):
     """Builds the gate with the real class, wrapping its helper methods on the instance; returns
-    (gate, levels) where levels is the list of per-level records in processing order."""
+    (gate, levels) where levels is the list of per-level records in processing order.
+    `build(cls)` (optional) constructs the gate from another form of the same input / options."""
     from qiskit import QuantumCircuit
     cls = get_class(cls_name)
-    g = cls(np.array(v), opt_params={"target_state": int(t), "preserve_previous": bool(preserve)})
+    if build is not None:
+        g = build(cls)
+    else:
+        g = cls(np.array(v), opt_params={"target_state": int(t), "preserve_previous": bool(preserve)})
     levels = []
     tags = {}
     cur = {}
@@ -361,16 +366,22 @@ def vec_payload(v):
     return [[float(np.real(a)), float(np.imag(a))] for a in v]
 
 
-def one_case(ctx, cls_name, n, t, preserve, fam, v, info=None, do_tie=True, do_oracle=True, key=None, tol=1e-7):
+def one_case(ctx, cls_name, n, t, preserve, fam, v, info=None, do_tie=True, do_oracle=True, key=None, tol=1e-7,
+             build=None, div=None):
+    """`build` / `div`: the gate is constructed from another FORM of the same vector / options (diversity section);
+    `div` is the JSON recipe of that form (kept in the replay payload), v / t / preserve stay the harness's own
+    reading of the user input (np.asarray(raw, dtype=complex), the options the dict stands for)."""
     from qiskit.quantum_info import Operator
     N = 2 ** n
     h = zlib.crc32(np.asarray(v, dtype=complex).tobytes()) & 0xffffff
     key = key or f"{cls_name}:col:{fam}:n={n}:t={t}:pres={int(preserve)}:{h:x}"
     rep = {"call": f"{cls_name}", "n": n, "t": t, "preserve": bool(preserve), "family": fam, "vector": vec_payload(v),
            "info": info or {}}
+    if div is not None:
+        rep["div"] = div
     ctx.count(f"{cls_name}:{fam}:pres={int(preserve)}")
     try:
-        g, levels = trace(cls_name, v, t, preserve)
+        g, levels = trace(cls_name, v, t, preserve, build=build)
     except Exception as e:  # raised by qclib/qiskit while building the definition of a valid input
         if cls_name == "ucge" and preserve:
             ctx.count("ucge+preserve raises (outside the property)")
@@ -684,6 +695,742 @@ def string_tables(ctx, nmax):
             ctx.tie({"op": "strs", "n": n, "t": t}, lines)
 
 
+# ------------------------------------------------------------------------------------------------
+# input-diversity section (forms of otherwise ordinary inputs): element types, scale structure,
+# sign / phase structure, call forms, sizes.  Every case is a JSON recipe `div` + (cls, n, t, preserve, v);
+# `_diversity_case` executes a recipe (run and replay use the same code).  The ideal is always the
+# harness's own reading of the ORIGINAL input: np.asarray(raw, dtype=complex) and the (t, preserve)
+# the options stand for.
+# ------------------------------------------------------------------------------------------------
+
+DFORMS = ("c128", "c64", "f64", "f32", "list", "tuple", "list-float", "list-npc64", "list-npc128", "list-npf32",
+          "list-npf64", "list-mixed", "int-list", "i64", "i32", "c128-negzero", "f64-negzero")
+OFORMS_T0 = ("omitted", "none", "empty", "nones", "pres-false-only", "positional-none")
+OFORMS_T = ("t-only", "t+pres-none", "full", "full-positional", "t-int64", "t-int32", "t-uint8", "pres-npbool",
+            "pres-int", "extra-key")
+
+
+def _div_raw(v, dform):
+    """the raw user input of form `dform` whose complex reading is exactly v (None if v has no such form)."""
+    v = np.asarray(v, dtype=complex)
+    real = not np.any(v.imag)
+    integral = real and bool(np.all(v.real == np.round(v.real)))
+
+    def neg0(x):
+        return -0.0 if x == 0 else float(x)
+    raw = None
+    if dform == "c128":
+        raw = np.array(v, dtype=np.complex128)
+    elif dform == "c64":
+        raw = v.astype(np.complex64)
+    elif dform == "f64" and real:
+        raw = np.array(v.real, dtype=np.float64)
+    elif dform == "f32" and real:
+        raw = v.real.astype(np.float32)
+    elif dform == "list":
+        raw = [complex(a) for a in v]
+    elif dform == "tuple":
+        raw = tuple(complex(a) for a in v)
+    elif dform == "list-float" and real:
+        raw = [float(a.real) for a in v]
+    elif dform == "list-npc64":
+        raw = [np.complex64(a) for a in v]
+    elif dform == "list-npc128":
+        raw = [np.complex128(a) for a in v]
+    elif dform == "list-npf32" and real:
+        raw = [np.float32(a.real) for a in v]
+    elif dform == "list-npf64" and real:
+        raw = [np.float64(a.real) for a in v]
+    elif dform == "list-mixed":
+        raw = [int(a.real) if (a.imag == 0 and a.real == round(a.real)) else float(a.real) if a.imag == 0 else complex(a)
+               for a in v]
+    elif dform == "int-list" and integral:
+        raw = [int(a.real) for a in v]
+    elif dform == "i64" and integral:
+        raw = np.array(v.real, dtype=np.int64)
+    elif dform == "i32" and integral:
+        raw = np.array(v.real, dtype=np.int32)
+    elif dform == "c128-negzero":
+        raw = np.array([complex(neg0(a.real), neg0(a.imag)) for a in v], dtype=np.complex128)
+    elif dform == "f64-negzero" and real:
+        raw = np.array([neg0(a.real) for a in v], dtype=np.float64)
+    if raw is None:
+        return None
+    back = np.asarray(raw, dtype=complex)
+    if back.shape != v.shape or not np.array_equal(back, v):
+        return None      # not exactly representable in that element type (float32 / complex64 of a non-dyadic value)
+    return raw
+
+
+def _div_opt(oform, t, preserve):
+    """(positional args after the vector, keyword args, t the options stand for, preserve they stand for)"""
+    t, preserve = int(t), bool(preserve)
+    if oform == "omitted":
+        return (), {}, 0, False
+    if oform == "none":
+        return (), {"opt_params": None}, 0, False
+    if oform == "positional-none":
+        return (None, None), {}, 0, False
+    if oform == "empty":
+        return (), {"opt_params": {}}, 0, False
+    if oform == "nones":
+        return (), {"opt_params": {"target_state": None, "preserve_previous": None}}, 0, False
+    if oform == "pres-false-only":
+        return (), {"opt_params": {"preserve_previous": False}}, 0, False
+    if oform == "pres-only":
+        return (), {"opt_params": {"preserve_previous": True}}, 0, True
+    if oform == "t-only":
+        return (), {"opt_params": {"target_state": t}}, t, False
+    if oform == "t+pres-none":
+        return (), {"opt_params": {"target_state": t, "preserve_previous": None}}, t, False
+    if oform == "full":
+        return (), {"opt_params": {"target_state": t, "preserve_previous": preserve}}, t, preserve
+    if oform == "full-positional":
+        return ("lbl", {"preserve_previous": preserve, "target_state": t}), {}, t, preserve
+    if oform == "t-int64":
+        return (), {"opt_params": {"target_state": np.int64(t), "preserve_previous": preserve}}, t, preserve
+    if oform == "t-int32":
+        return (), {"opt_params": {"target_state": np.int32(t), "preserve_previous": preserve}}, t, preserve
+    if oform == "t-uint8":
+        return (), {"opt_params": {"target_state": np.uint8(t), "preserve_previous": preserve}}, t, preserve
+    if oform == "pres-npbool":
+        return (), {"opt_params": {"target_state": t, "preserve_previous": np.bool_(preserve)}}, t, preserve
+    if oform == "pres-int":
+        return (), {"opt_params": {"target_state": t, "preserve_previous": int(preserve)}}, t, preserve
+    if oform == "extra-key":
+        return (), {"opt_params": {"target_state": t, "preserve_previous": preserve, "lr": 0, "iso_scheme": "ccd"}}, t, preserve
+    raise ValueError(oform)
+
+
+def _div_embed(x, wires):
+    return sum(((x >> k) & 1) << wires[k] for k in range(len(wires)))
+
+
+def _div_check_circuit(ctx, key, rep, circ, wires, v, t, preserve, spare_masks=(0,)):
+    """observable of the property on a host circuit: the column of |t> placed on `wires` (little endian: bit k of t on
+    wires[k]) is v placed on the same wires, for every listed setting of the spare wires; with preserve and support
+    on indices >= t every |j>, j < t, is mapped to itself up to a phase."""
+    from qiskit.quantum_info import Operator
+    n = len(wires)
+    u = Operator(circ).data
+    dim = u.shape[0]
+    spare = [q for q in range(circ.num_qubits) if q not in wires]
+    for sm in spare_masks:
+        off = sum(1 << q for i, q in enumerate(spare) if (sm >> i) & 1) if sm >= 0 else sum(1 << q for q in spare)
+        want = np.zeros(dim, dtype=complex)
+        for x in range(2 ** n):
+            want[_div_embed(x, wires) + off] = v[x]
+        err = float(np.abs(u[:, _div_embed(t, wires) + off] - want).max())
+        if err > 1e-7:
+            ctx.fail(key, f"column of |t={t}> on wires {wires} (spare wires offset {off}) differs from the vector by {err:.3e}",
+                     dict(rep, observed_err=err))
+            return False
+        if preserve and not np.any(v[:t]):
+            for j in range(t):
+                col = u[:, _div_embed(j, wires) + off].copy()
+                ph = col[_div_embed(j, wires) + off]
+                col[_div_embed(j, wires) + off] = 0
+                e2 = max(float(np.abs(col).max()), abs(abs(ph) - 1))
+                if e2 > 1e-7:
+                    ctx.fail(key + f":preserve:j={j}", f"basis state {j} < t={t} (wires {wires}, offset {off}) is not mapped to "
+                             f"itself up to a phase (deviation {e2:.3e})", dict(rep, column=j, observed_err=e2))
+                    return False
+            ctx.count("diversity:preserve-columns-checked", t)
+    return True
+
+
+def _div_wires(pr, n, host):
+    """n distinct wires of a host of `host` qubits, never in ascending order for n >= 2; for n = 1 never wire 0."""
+    while True:
+        w = pr.sample(range(host), n)
+        if (n >= 2 and w != sorted(w)) or (n == 1 and w[0] != 0):
+            return w
+
+
+def _diversity_case(ctx, cls_name, n, t, preserve, v, div, fam, do_tie=True):
+    """executes one recipe.  div = {"gform": how the gate is used, "dform": element form of the vector,
+    "oform": form of the options, + per-gform fields}.  (t, preserve) are REQUESTED values; the option form decides
+    what the library is told and therefore what it has to deliver (e.g. oform 'none' stands for t = 0)."""
+    from qiskit import QuantumCircuit, QuantumRegister
+    import copy as _copy
+    cls = get_class(cls_name)
+    v = np.asarray(v, dtype=complex)
+    gform, dform, oform = div.get("gform", "ctor"), div.get("dform", "c128"), div.get("oform", "full")
+    raw = _div_raw(v, dform)
+    if raw is None:
+        ctx.count(f"diversity:skipped:{dform}:not-representable")
+        return None
+    v = np.asarray(raw, dtype=complex)           # the harness's own reading of the user input
+    pargs, kwargs, t, preserve = _div_opt(oform, t, preserve)
+    h = zlib.crc32(v.tobytes()) & 0xffffff
+    key = f"{cls_name}:div:{fam}:{gform}:{dform}:{oform}:n={n}:t={t}:pres={int(preserve)}:{h:x}"
+    ctx.count(f"diversity:gform:{gform}")
+    ctx.count(f"diversity:dform:{dform}")
+    ctx.count(f"diversity:oform:{oform}")
+    ctx.count("diversity:family:" + fam.split(":")[0])
+    ctx.count(f"diversity:n={n}:{cls_name}:pres={int(preserve)}")
+    if gform == "ctor":
+        return one_case(ctx, cls_name, n, t, preserve, "div:" + fam + ":" + dform + ":" + oform, v, do_tie=do_tie, key=key,
+                        build=lambda c: c(raw, *pargs, **kwargs), div=div)
+
+    rep = {"call": cls_name, "n": n, "t": t, "preserve": bool(preserve), "family": fam, "vector": vec_payload(v), "div": div}
+    opt = kwargs.get("opt_params", pargs[1] if len(pargs) > 1 else None)
+    try:
+        if gform == "static":
+            qform, wires, host = div["qform"], list(div.get("wires") or range(n)), int(div.get("host", n))
+            kw = {} if oform == "omitted" else {"opt_params": opt}
+            if qform == "none":
+                circ, wires = QuantumCircuit(n), list(range(n))
+                cls.initialize(circ, raw, **kw)
+            elif qform == "none-explicit":
+                circ, wires = QuantumCircuit(n), list(range(n))
+                cls.initialize(circ, raw, qubits=None, **kw)
+            elif qform == "none-2regs":
+                a = max(1, n // 2) if n > 1 else 1
+                circ = QuantumCircuit(QuantumRegister(a, "a"), QuantumRegister(n - a, "b")) if n > 1 else \
+                    QuantumCircuit(QuantumRegister(1, "a"))
+                wires = list(range(n))
+                cls.initialize(circ, raw, **kw)
+            elif qform == "ints":
+                circ = QuantumCircuit(host)
+                cls.initialize(circ, raw, qubits=list(wires), **kw)
+            elif qform == "ints-positional":
+                circ = QuantumCircuit(host)
+                cls.initialize(circ, raw, list(wires), opt)
+            elif qform == "tuple-ints":
+                circ = QuantumCircuit(host)
+                cls.initialize(circ, raw, qubits=tuple(wires), **kw)
+            elif qform == "qubits":
+                circ = QuantumCircuit(host)
+                cls.initialize(circ, raw, qubits=[circ.qubits[w] for w in wires], **kw)
+            elif qform == "regs":
+                a = host // 2
+                ra, rb = QuantumRegister(a, "a"), QuantumRegister(host - a, "b")
+                circ = QuantumCircuit(rb, ra)     # register order differs from the alphabetical one
+                cls.initialize(circ, raw, qubits=[circ.qubits[w] for w in wires], **kw)
+            else:
+                raise ValueError(qform)
+            ok = _div_check_circuit(ctx, key + f":q={qform}:w={''.join(map(str, wires))}", rep, circ, wires, v, t, preserve,
+                                    spare_masks=(0, -1))
+            ctx.count(f"diversity:static:{cls_name}:{qform}")
+            if ok:
+                ctx.ok(key + f":q={qform}:w={''.join(map(str, wires))}", nontrivial=n >= 2,
+                       sample={"cls": cls_name, "n": n, "t": t, "div": div})
+            return ok
+
+        if gform == "reuse-dict":
+            # ONE options dict object for two constructions, contents changed in between and again afterwards
+            # (before any definition is built); both gates must follow the contents at THEIR construction time
+            t_a = int(div["t_other"])
+            d = {"target_state": t_a, "preserve_previous": False}
+            g_a = cls(raw, opt_params=d)
+            d["target_state"] = t
+            d["preserve_previous"] = preserve
+            g_b = cls(raw, opt_params=d)
+            d["target_state"] = int(div.get("t_after", 0))
+            d["preserve_previous"] = not preserve
+            first = (g_a, g_b) if div.get("order", "ab") == "ab" else (g_b, g_a)
+            defs = {id(g): g.definition for g in first}
+            ok = _div_check_circuit(ctx, key + ":second", rep, defs[id(g_b)], list(range(n)), v, t, preserve)
+            ok = _div_check_circuit(ctx, key + f":first:t={t_a}", rep, defs[id(g_a)], list(range(n)), v, t_a, False) and ok
+            # a later construction without options must not inherit anything
+            g_c = cls(raw)
+            ok = _div_check_circuit(ctx, key + ":then-none", rep, g_c.definition, list(range(n)), v, 0, False) and ok
+            if ok:
+                ctx.ok(key, nontrivial=n >= 2, sample={"cls": cls_name, "n": n, "t": t, "div": div})
+            return ok
+
+        g = cls(raw, *pargs, **kwargs)
+        wires = list(range(n))
+        checks = []        # (suffix, circuit, wires, vector, t, preserve)
+        if gform == "append-twice":
+            # the SAME gate object on two disjoint wire sets of one host: |t>|t> -> v (x) v
+            w1, w2 = list(div["wires"][:n]), list(div["wires"][n:])
+            circ = QuantumCircuit(2 * n)
+            circ.append(g, w1)
+            circ.append(g, w2)
+            vv = np.zeros(4 ** n, dtype=complex)
+            for x in range(2 ** n):
+                for y in range(2 ** n):
+                    vv[x + (y << n)] = v[x] * v[y]
+            checks.append(("", circ, w1 + w2, vv, t + (t << n), False))
+        elif gform == "append-decompose":
+            circ = QuantumCircuit(n + 1)
+            w = list(div["wires"])
+            circ.append(g, w)
+            checks.append(("", circ.decompose(), w, v, t, preserve))
+        elif gform == "copy-before-definition":
+            g2 = g.copy()
+            d2 = g2.definition
+            d1 = g.definition
+            checks += [(":copy", d2, wires, v, t, preserve), (":orig", d1, wires, v, t, preserve)]
+        elif gform == "copy-after-definition":
+            d1 = g.definition
+            g2 = g.copy()
+            g3 = _copy.deepcopy(g)
+            g4 = g.to_mutable()
+            checks += [(":orig", d1, wires, v, t, preserve), (":copy", g2.definition, wires, v, t, preserve),
+                       (":deepcopy", g3.definition, wires, v, t, preserve), (":mutable", g4.definition, wires, v, t, preserve)]
+        elif gform == "rebuild":
+            # the definition is built twice from the same object (Instruction._define is what qiskit calls whenever
+            # the cached definition is absent, e.g. on a copy taken before the first access)
+            d1 = g.definition
+            g._define()
+            d2 = g.definition
+            g2 = g.copy()
+            g2._define()
+            checks += [(":first", d1, wires, v, t, preserve), (":second", d2, wires, v, t, preserve),
+                       (":copy-rebuilt", g2.definition, wires, v, t, preserve), (":orig-after", g.definition, wires, v, t, preserve)]
+        elif gform == "inverse":
+            gi = g.inverse()
+            from qiskit.quantum_info import Operator
+            ui = Operator(gi.definition).data
+            e = np.zeros(2 ** n, dtype=complex)
+            e[t] = 1
+            err = float(np.abs(ui @ v - e).max())
+            if err > 1e-7:
+                ctx.fail(key, f"inverse() gate maps the vector to something {err:.3e} away from |t={t}>", dict(rep, observed_err=err))
+                return False
+            checks.append((":orig-after-inverse", g.definition, wires, v, t, preserve))
+        else:
+            raise ValueError(gform)
+    except Exception as e:
+        ctx.fail(key + f":raises:{type(e).__name__}", f"{type(e).__name__}: {e}", rep)
+        return False
+    ok = True
+    for suffix, circ, w, vec, tt, pp in checks:
+        ok = _div_check_circuit(ctx, key + suffix, rep, circ, w, vec, tt, pp) and ok
+    if ok:
+        ctx.ok(key, nontrivial=n >= 2, sample={"cls": cls_name, "n": n, "t": t, "div": div})
+    return ok
+
+
+def _norm(v):
+    v = np.asarray(v, dtype=complex)
+    return v / np.linalg.norm(v)
+
+
+def _div_t_list(n):
+    N = 2 ** n
+    return sorted({0, 1, N // 2 - 1, N // 2, N - 1} & set(range(N)))
+
+
+def _div_dyadic(pr, n, kind):
+    """exactly normalised vectors with dyadic moduli (exact in float32 / complex64) and phases +-1 (kind 'real')
+    or +-1, +-i ('complex'); 'basis': a single +-1 / +-i entry (integer forms)."""
+    N = 2 ** n
+    pools = {1: [[1, 0]], 2: [[.5, .5, .5, .5], [.5, .5, .5, .5], [1, 0, 0, 0]],
+             3: [[.5, .5, .5, .25, .25, .25, .25, 0], [.75] + [.25] * 7, [.5, .5, .5, .5, 0, 0, 0, 0], [.5, .5, 0, .5, 0, 0, .5, 0]],
+             4: [[.25] * 16, [.5, .5, .5] + [.25] * 4 + [0] * 9, [.75] + [.25] * 7 + [0] * 8]}
+    if kind == "basis":
+        m = [0.0] * N
+        m[pr.randrange(N)] = 1.0
+    else:
+        m = list(pr.choice(pools[n]))
+        pr.shuffle(m)
+    ph = [1, -1] if kind in ("real", "basis") else [1, -1, 1j, -1j]
+    v = np.array([a * pr.choice(ph) for a in m], dtype=complex)
+    if kind != "basis" and len([a for a in v if a != 0]) > 1 and not any(a.real < 0 or a.imag != 0 for a in v):
+        k = [i for i, a in enumerate(v) if a != 0][-1]
+        v[k] = -v[k]                  # at least one negative entry
+    return v
+
+
+def _diversity_element_types(ctx, pr, r):
+    """family 1: every element form x class configuration x n = 1, 2, 3 (+ n = 4 for the array dtypes), constructor
+    form with the full dict (tie + oracle); vectors with dyadic moduli so that float32 / complex64 hold them exactly;
+    zeros and negative entries present; zeros moved in front of t for the preserve configuration."""
+    for n in (1, 2, 3, 4):
+        N = 2 ** n
+        forms = DFORMS if n <= 3 else ("c64", "f32", "list-mixed", "tuple", "f64-negzero")
+        for dform in forms:
+            integral = dform in ("int-list", "i64", "i32")
+            realform = dform in ("f64", "f32", "list-float", "list-npf32", "list-npf64", "f64-negzero")
+            kind = "basis" if integral or n == 1 else "real" if realform else "complex"
+            for cls_name, preserve in (("ucg", False), ("ucge", False), ("ucg", True)):
+                v = _div_dyadic(pr, n, kind)
+                if n == 1 and dform in ("c128", "c64", "list", "tuple", "list-npc64", "list-npc128", "list-mixed", "c128-negzero"):
+                    v = v * pr.choice([1j, -1j, -1])
+                if preserve:
+                    nz = [i for i, a in enumerate(v) if a != 0]
+                    # zeros first: the support then starts at index t = number of zeros (or below)
+                    order = [i for i in range(N) if v[i] == 0] + nz
+                    v = v[order]
+                    first = N - len(nz)
+                    t = pr.choice([first, max(first - 1, 0)]) if first > 0 else 0
+                else:
+                    t = pr.choice(_div_t_list(n))
+                _diversity_case(ctx, cls_name, n, t, preserve, v, {"gform": "ctor", "dform": dform, "oform": "full"},
+                                "types", do_tie=n <= 3)
+                ctx.count(f"diversity:element-type:{dform}")
+
+
+def _diversity_scale(ctx, pr, r):
+    """family 2: heavy head + light tail (tail 1e-3 / 1e-4 / 1e-6 / mixed, head on t / first / last index, tail before
+    and after t), two heavy heads, all-equal moduli with phases +-1 +-i, exactly repeated values, all-negative reals,
+    purely imaginary, sparse (2 non-zeros), the whole norm in one quarter sub-tree."""
+    def ph(N, kind="generic"):
+        if kind == "generic":
+            return np.exp(1j * r.uniform(0, 2 * np.pi, size=N))
+        return r.choice([1, -1, 1j, -1j], size=N)
+    for n in (1, 2, 3, 4):
+        N = 2 ** n
+        ts = _div_t_list(n) if n <= 3 else [1, N // 2 - 1, N - 1]
+        for t in ts:
+            cases = []
+            for tail, tname in ((1e-3, "1e-3"), (1e-4, "1e-4"), (1e-6, "1e-6"), (None, "mixed")):
+                if n == 1 or (n == 4 and tname in ("1e-3", "1e-4")):
+                    continue
+                mags = np.full(N, tail) if tail else 10.0 ** r.uniform(-6, -3, size=N)
+                mags = mags * r.uniform(0.5, 1.0, size=N)
+                for head in pr.sample(["t", "first", "last", "two"], 2):
+                    v = mags * ph(N)
+                    hs = {"t": [t], "first": [0], "last": [N - 1], "two": sorted({t, (t + N // 2 + 1) % N})}[head]
+                    for k in hs:
+                        v[k] = r.uniform(0.6, 1.0) * np.exp(1j * r.uniform(0, 6.28))
+                    cases.append((f"light-tail:{tname}:head-{head}", v))
+            cases.append(("equal-moduli:pm1-pmi", ph(N, "units")))
+            cases.append(("equal-moduli:pm1", r.choice([1.0, -1.0], size=N) + 0j))
+            vals = r.uniform(0.3, 1.0, size=2) * np.array([1, -1])
+            cases.append(("repeated-values", vals[r.integers(0, 2, size=N)] + 0j))
+            cases.append(("all-negative", -r.uniform(0.2, 1.0, size=N) + 0j))
+            cases.append(("purely-imaginary", 1j * r.uniform(0.2, 1.0, size=N) * r.choice([1, -1], size=N)))
+            if n >= 2:
+                sp = np.zeros(N, dtype=complex)
+                idx = sorted({t, int(r.integers(N)), N - 1})[-2:] if t < N - 1 else [int(r.integers(N - 1)), N - 1]
+                sp[idx] = r.uniform(0.3, 1.0, size=len(idx)) * ph(len(idx))
+                cases.append(("sparse-2", sp))
+                q = np.zeros(N, dtype=complex)
+                b = (t // max(N // 4, 1)) * max(N // 4, 1)
+                q[b:b + max(N // 4, 1)] = r.uniform(0.3, 1.0, size=max(N // 4, 1)) * ph(max(N // 4, 1))
+                cases.append(("one-subtree", q))
+            for name, v in cases:
+                if n == 4 and pr.random() < 0.5:
+                    continue
+                v = _norm(v)
+                for cls_name, preserve in (("ucg", False), ("ucge", False), ("ucg", True)):
+                    w = v
+                    if preserve:
+                        w = v.copy()
+                        w[:t] = 0
+                        if not np.any(w):
+                            continue
+                        w = _norm(w)
+                    lv = _diversity_case(ctx, cls_name, n, t, preserve, w, {"gform": "ctor", "dform": "c128", "oform": "full"},
+                                         "scale:" + name, do_tie=n <= 3 and pr.random() < 0.5)
+                    if lv is not None:
+                        ctx.count("diversity:scale:" + name)
+
+
+def _diversity_phase(ctx, pr, r):
+    """family 3: at every tree level L and for both values of the target bit of that level, a sibling pair (the one
+    pulled out by preserve_previous or another one) whose |0> child vanishes exactly while the |1> sibling block is
+    phase x (positive | real with signs | complex) for phase 1, -1, i, -i, generic, the rest of the vector positive /
+    real / complex; global phases -1, i, -i on positive and on real vectors; support {t} only and {2^n - 1} only
+    with those phases; negative zeros (complex(-0.0, -0.0) entries, real parts with imaginary part -0.0)."""
+    def block(kind, m):
+        if kind == "pos":
+            return r.uniform(0.3, 1.0, size=m) + 0j
+        if kind == "real":
+            return r.uniform(0.3, 1.0, size=m) * r.choice([-1.0, 1.0], size=m) + 0j
+        return r.uniform(0.3, 1.0, size=m) * np.exp(1j * r.uniform(0, 2 * np.pi, size=m))
+    phases = [("1", 1), ("-1", -1), ("i", 1j), ("-i", -1j), ("generic", None)]
+    for n in (1, 2, 3, 4):
+        N = 2 ** n
+        for L in range(1, n + 1):
+            npairs, B, q = 2 ** (L - 1), 2 ** (n - L), n - L
+            for bit in (0, 1):
+                for pname in ("rgate", "other"):
+                    if pname == "other" and npairs == 1:
+                        continue
+                    for phname, phv in (phases if n <= 3 else phases[1:3]):
+                        t = pr.randrange(N)
+                        t = (t | (1 << q)) if bit else (t & ~(1 << q))
+                        rg = t >> (q + 1)
+                        k = rg if pname == "rgate" else pr.choice([x for x in range(npairs) if x != rg])
+                        kind = pr.choice(["pos", "real", "complex"])
+                        v = block(kind, N)
+                        v[2 * k * B:(2 * k + 1) * B] = 0
+                        z = phv if phv is not None else np.exp(1j * r.uniform(0.3, 6.0))
+                        v[(2 * k + 1) * B:(2 * k + 2) * B] = z * block(pr.choice(["pos", kind]), B)
+                        v = _norm(v)
+                        cfgs = [("ucg", False), ("ucge", False), ("ucg", True)]
+                        if n >= 3:
+                            cfgs = cfgs[:2] + ([cfgs[2]] if pr.random() < 0.5 else []) if n == 3 else [pr.choice(cfgs[:2]), cfgs[2]]
+                        for cls_name, preserve in cfgs:
+                            w = v
+                            if preserve:
+                                w = v.copy()
+                                w[:t] = 0
+                                if not np.any(w):
+                                    continue
+                                w = _norm(w)
+                            dform = pr.choice(["c128", "c128", "f64", "list", "c128-negzero"])
+                            if dform == "f64" and np.any(w.imag):
+                                dform = "c128"
+                            lv = _diversity_case(ctx, cls_name, n, t, preserve, w,
+                                                 {"gform": "ctor", "dform": dform, "oform": "full"},
+                                                 f"zero-ket0:L={L}:bit={bit}:{pname}:ph={phname}", do_tie=n <= 3)
+                            if lv is not None:
+                                ctx.count(f"diversity:zero-ket0-sibling-phase:{phname}:bit={bit}:"
+                                          f"level={'first' if L == n else 'last' if L == 1 else 'mid'}")
+        # global phases, single-entry supports
+        for t in (range(N) if n <= 2 else _div_t_list(n)):
+            for gname, gph in (("-1", -1), ("i", 1j), ("-i", -1j)):
+                for kind in (pr.choice(["pos", "real"]),):
+                    v = _norm(gph * block(kind, N))
+                    for cls_name, preserve in (("ucg", False), ("ucge", False), ("ucg", True)):
+                        w = v
+                        if preserve:
+                            if t == 0 and n > 1:
+                                continue
+                            w = v.copy()
+                            w[:t] = 0
+                            w = _norm(w)
+                        dform = "c128-negzero" if kind == "pos" else "c128"
+                        if _diversity_case(ctx, cls_name, n, t, preserve, w, {"gform": "ctor", "dform": dform, "oform": "full"},
+                                           f"global-phase:{gname}:{kind}", do_tie=n <= 3 and pr.random() < 0.5) is not None:
+                            ctx.count(f"diversity:global-phase:{gname}")
+            for sname, j in (("t", t), ("last", N - 1)):
+                if sname == "last" and t == N - 1:
+                    continue
+                for phname, phv in phases:
+                    if (n >= 2 and phname in ("1", "-i")) or (n == 4 and t not in (1, N - 1)):
+                        continue
+                    v = np.zeros(N, dtype=complex)
+                    v[j] = phv if phv is not None else np.exp(1j * r.uniform(0.3, 6.0))
+                    cfgs = [("ucg", False), ("ucge", False), ("ucg", True)]
+                    for cls_name, preserve in (cfgs if n <= 1 else [pr.choice(cfgs[:2]), cfgs[2]]):
+                        dform = pr.choice(["c128", "list-mixed", "c128-negzero", "tuple"])
+                        if _diversity_case(ctx, cls_name, n, t, preserve, v, {"gform": "ctor", "dform": dform, "oform": "full"},
+                                           f"support-{sname}:ph={phname}", do_tie=n <= 3 and pr.random() < 0.5) is not None:
+                            ctx.count(f"diversity:support={{{sname}}}:ph={phname}")
+
+
+def _div_kron_state(r, n, groups, kinds):
+    """product over the wire groups; factor kinds: 'pos' positive, 'gph' e^{ia} x positive (one prefactor phase),
+    'signs' real with internal signs, 'cplx' generic complex, 'm1' / 'i': (-1) / i x positive."""
+    v = np.ones(2 ** n, dtype=complex)
+    for g, kind in zip(groups, kinds):
+        d = 2 ** len(g)
+        s = r.uniform(0.3, 1.0, size=d) + 0j
+        if kind == "gph":
+            s = s * np.exp(1j * r.uniform(0.3, 6.0))
+        elif kind == "m1":
+            s = -s
+        elif kind == "i":
+            s = 1j * s
+        elif kind == "signs":
+            s = s * r.choice([-1.0, 1.0], size=d)
+            s[0], s[-1] = abs(s[0]), -abs(s[-1])
+        elif kind == "cplx":
+            s = s * np.exp(1j * r.uniform(0, 2 * np.pi, size=d))
+        s = s / np.linalg.norm(s)
+        for idx in range(2 ** n):
+            k = sum(((idx >> q) & 1) << i for i, q in enumerate(g))
+            v[idx] *= s[k]
+    return v
+
+
+PARTITIONS = {2: [[[0], [1]]],
+              3: [[[0], [1, 2]], [[1], [0, 2]], [[2], [0, 1]], [[0], [1], [2]]],
+              4: [[[0, 1], [2, 3]], [[0, 2], [1, 3]], [[0, 3], [1, 2]], [[0], [1, 2, 3]], [[3], [0, 1, 2]], [[1], [0, 2, 3]],
+                  [[2], [0, 1, 3]], [[0], [1], [2, 3]], [[0], [3], [1, 2]], [[0], [1], [2], [3]]]}
+
+
+def _diversity_products(ctx, pr, r):
+    """UCGE simplification: product states over every wire partition with equal prefactor phases (all factors positive,
+    all with the same kind of phase) and differing ones (one factor -1 / i / generic phase / internal signs / complex,
+    the others positive): some controls dropped, others kept; partly repeating multiplexers (a product for one value of
+    a wire, entangled for the other; vanishing blocks giving repeated identity entries) - for every t (n <= 3) /
+    boundary t (n = 4)."""
+    mixes = [("all-pos", lambda k: ["pos"] * k), ("all-gph", lambda k: ["gph"] * k), ("one-m1", lambda k: ["m1"] + ["pos"] * (k - 1)),
+             ("one-i-last", lambda k: ["pos"] * (k - 1) + ["i"]), ("one-signs", lambda k: ["signs"] + ["pos"] * (k - 1)),
+             ("signs-last", lambda k: ["pos"] * (k - 1) + ["signs"]), ("one-cplx", lambda k: ["pos"] * (k - 1) + ["cplx"]),
+             ("m1-and-i", lambda k: ["m1", "i"] + ["pos"] * (k - 2))]
+    for n in (2, 3, 4):
+        N = 2 ** n
+        ts = list(range(N)) if n <= 3 else _div_t_list(n)
+        for groups in PARTITIONS[n]:
+            for t in ts:
+                picks = pr.sample(mixes, 3 if n <= 3 else 2)
+                for mname, mk in picks:
+                    v = _norm(_div_kron_state(r, n, groups, mk(len(groups))))
+                    gname = "|".join("".join(map(str, g)) for g in groups)
+                    cfgs = [("ucge", False)] + ([("ucg", False)] if pr.random() < 0.34 else [])
+                    for cls_name, preserve in cfgs:
+                        lv = _diversity_case(ctx, cls_name, n, t, preserve, v, {"gform": "ctor", "dform": "c128", "oform": "t-only"},
+                                             f"product:{gname}:{mname}", do_tie=n <= 3)
+                        if lv is not None and cls_name == "ucge":
+                            dropped = sum(len(x.get("dc", [])) for x in lv)
+                            keptc = sum(len(x.get("mc", [])) for x in lv)
+                            ctx.count(f"diversity:product:{mname}")
+                            ctx.count("diversity:ucge:controls-" + ("dropped+kept" if dropped and keptc else
+                                                                   "dropped-only" if dropped else "kept-only"))
+        # partly repeating multiplexers at every position of the control: for wire c = 0 the rest is a product, for c = 1 entangled
+        for c in range(n):
+            for t in ts:
+                rest = [q for q in range(n) if q != c]
+                kind = pr.choice(["pos", "signs", "conj", "abs"])
+                if kind in ("conj", "abs"):
+                    # the c = 1 block is the complex conjugate of / has the moduli of the c = 0 block: multiplexer entries
+                    # with equal real parts (equal moduli) that are NOT equal
+                    a = r.uniform(0.3, 1.0, size=2 ** (n - 1)) * np.exp(1j * r.uniform(0.4, 2.7, size=2 ** (n - 1)))
+                    a = a / np.linalg.norm(a)
+                    b = np.conj(a) if kind == "conj" else np.abs(a) * r.choice([1, -1, 1j, -1j], size=2 ** (n - 1))
+                else:
+                    a = _div_kron_state(r, n - 1, [[i] for i in range(n - 1)], [kind] + ["pos"] * (n - 2))
+                    b = r.uniform(0.3, 1.0, size=2 ** (n - 1)) * (r.choice([-1.0, 1.0], size=2 ** (n - 1)) if kind == "signs" else 1.0)
+                    if pr.random() < 0.5:
+                        b[:2 ** (n - 2)] = 0          # vanishing block: repeated identity entries
+                v = np.zeros(N, dtype=complex)
+                for idx in range(N):
+                    sub = sum(((idx >> q) & 1) << i for i, q in enumerate(rest))
+                    v[idx] = (a[sub] if not (idx >> c) & 1 else b[sub] / np.linalg.norm(b))
+                v = _norm(v)
+                for cls_name in ("ucge", "ucg"):
+                    if cls_name == "ucg" and pr.random() < 0.6:
+                        continue
+                    if _diversity_case(ctx, cls_name, n, t, False, v, {"gform": "ctor", "dform": "c128", "oform": "t-only"},
+                                       f"partly-repeating:c={c}:{kind}", do_tie=n <= 3) is not None:
+                        ctx.count("diversity:ucge:partly-repeating:" + kind)
+
+
+DIV_PATTERNS = {
+    2: ["A A~", "A A@-1", "A A@i"],
+    3: ["A B A B~", "A B A B@-1", "A B A B@i", "A A@-1 A A@-1", "A A~ A A", "A@i B A@i B@-i", "A B~ B A"],
+    4: ["A B C D A B C D~", "A B A B A B A B~", "A B A B A B A B@-1", "A A B B A A B B@i", "A B C D A B C@-1 D",
+        "A A A A A A~ A A", "A B C D A~ B~ C~ D~", "A@i B@i C D A@i B@i C D@-i"],
+}
+
+
+def _div_pattern_vector(r, pat):
+    """first-level sibling pairs from letters (LETTERS); `X~` is the complex conjugate pair (its 2x2 operator has the
+    same real part), `X@z` the pair times the phase z (operator with the same moduli): entries that agree in
+    real part / modulus but are NOT equal, placed where _repetition_search has already started verifying."""
+    v = []
+    for tok in pat.split():
+        name, _, z = tok.partition("@")
+        conj = name.endswith("~")
+        th, ph = LETTERS[name.rstrip("~")]
+        pair = np.array([np.cos(th), np.sin(th) * np.exp(1j * ph)])
+        if conj:
+            pair = np.conj(pair)
+        pair = pair * {"": 1, "-1": -1, "i": 1j, "-i": -1j}[z]
+        v += list(r.uniform(0.5, 1.0) * pair)
+    return np.array(v, dtype=complex)
+
+
+def _diversity_mux_patterns(ctx, pr, r):
+    """UCGE repetition search on multiplexers whose entries agree only in real part / in modulus / up to a phase
+    -1, i with an entry that a started verification compares them with."""
+    for n, pats in DIV_PATTERNS.items():
+        N = 2 ** n
+        for pat in pats:
+            for t in sorted({0, N - 1, pr.randrange(N)}):
+                v = _norm(_div_pattern_vector(r, pat))
+                for cls_name in ("ucge", "ucg"):
+                    if cls_name == "ucg" and pr.random() < 0.6:
+                        continue
+                    if _diversity_case(ctx, cls_name, n, t, False, v, {"gform": "ctor", "dform": "c128", "oform": "t-only"},
+                                       "mux-pattern:" + pat.replace(" ", "_"), do_tie=n <= 3) is not None:
+                        ctx.count("diversity:ucge:mux-pattern:" + ("conj" if "~" in pat else "phase"))
+
+
+def _diversity_call_forms(ctx, pr, r):
+    """family 4: option forms on the constructor (tie + oracle), the static helpers with every wire form on a wider
+    host, one options dict reused and changed, one gate object used several times / copied / rebuilt / inverted."""
+    def vec(n, t, preserve, fam=None):
+        fam = fam or (pr.choice(["complex", "real", "supp"]) if preserve else pr.choice(["complex", "zeros", "real", "product", "supp"]))
+        v, _ = make_vector(r, n, t, fam)
+        if preserve:
+            v = v.copy()
+            v[:t] = 0
+            if not np.any(v):
+                v[2 ** n - 1] = 1
+            v = _norm(v)
+        return v
+
+    def tnz(n, preserve=False):
+        """a target index that is not 0 (a dropped option would otherwise be invisible); with preserve one below
+        2^(n-1): the top-level gate is then a branch operator and only its controls keep the states below t in place"""
+        if preserve and n >= 2:
+            return pr.randrange(1, 2 ** (n - 1))
+        return pr.choice([x for x in _div_t_list(n) if x != 0] + [pr.randrange(1, 2 ** n)])
+    for n in (1, 2, 3):
+        for cls_name in ("ucg", "ucge"):
+            pres_opts = (False, True) if cls_name == "ucg" else (False,)
+            # constructor, option forms
+            for oform in OFORMS_T0 + (("pres-only",) if cls_name == "ucg" else ()):
+                dform = pr.choice(["c128", "list", "tuple", "c128-negzero"])
+                _diversity_case(ctx, cls_name, n, 0, False, vec(n, 0, False), {"gform": "ctor", "dform": dform, "oform": oform}, "opts")
+            for oform in OFORMS_T:
+                for preserve in pres_opts:
+                    if oform in ("t-only", "t+pres-none") and preserve:
+                        continue
+                    t = tnz(n, preserve)
+                    dform = pr.choice(["c128", "list", "tuple", "c128-negzero"])
+                    _diversity_case(ctx, cls_name, n, t, preserve, vec(n, t, preserve),
+                                    {"gform": "ctor", "dform": dform, "oform": oform}, "opts")
+            # static helper
+            for qform in ("none", "none-explicit", "none-2regs", "ints", "ints-positional", "tuple-ints", "qubits", "regs"):
+                oforms = ["omitted", "none", "empty", "t-only", "full", "t-int64", "pres-int"]
+                if qform == "ints-positional":
+                    oforms = ["none", "full", "t-only"]
+                for oform in oforms:
+                    if n == 3 and qform in ("none-explicit", "tuple-ints") and oform not in ("full", "t-only"):
+                        continue
+                    for preserve in pres_opts:
+                        if preserve and oform not in ("full", "t-int64", "pres-int"):
+                            continue
+                        t = tnz(n, preserve)
+                        host = n + (2 if n <= 2 else 1)
+                        wires = _div_wires(pr, n, host) if qform in ("ints", "ints-positional", "tuple-ints", "qubits", "regs") else None
+                        dform = pr.choice(["c128", "list", "tuple", "c64", "list-mixed"])
+                        v = vec(n, t if oform not in OFORMS_T0 else 0, preserve)
+                        if _div_raw(v, dform) is None:
+                            dform = "c128"
+                        _diversity_case(ctx, cls_name, n, t, preserve, v,
+                                        {"gform": "static", "dform": dform, "oform": oform, "qform": qform, "wires": wires, "host": host},
+                                        "static")
+            # one dict, two constructions
+            for preserve in pres_opts:
+                for order in ("ab", "ba"):
+                    t = tnz(n, preserve)
+                    t_a = pr.choice([x for x in range(2 ** n) if x != t])
+                    v = vec(n, t, preserve)
+                    _diversity_case(ctx, cls_name, n, t, preserve, v,
+                                    {"gform": "reuse-dict", "dform": "c128", "oform": "full", "t_other": t_a,
+                                     "t_after": pr.choice([x for x in range(2 ** n) if x != t]), "order": order}, "reuse")
+            # one gate object, several uses
+            for gform in ("append-twice", "append-decompose", "copy-before-definition", "copy-after-definition", "rebuild", "inverse"):
+                for preserve in pres_opts:
+                    t = tnz(n, preserve)
+                    v = vec(n, t, preserve)
+                    div = {"gform": gform, "dform": pr.choice(["c128", "list"]), "oform": pr.choice(["full", "t-int64"])}
+                    if gform == "append-twice":
+                        if preserve:
+                            continue
+                        div["wires"] = _div_wires(pr, 2 * n, 2 * n)
+                    if gform == "append-decompose":
+                        div["wires"] = _div_wires(pr, n, n + 1)
+                    _diversity_case(ctx, cls_name, n, t, preserve, v, div, "gate-object")
+
+
+def _diversity_run(ctx):
+    pr, r = ctx.rng, ctx.nprng()
+    ctx.notes.append("diversity cases: amplitudes are exactly 0 or >= 1e-6/sqrt(N) in modulus with generic phases on the light "
+                     "ones (a light amplitude treated as 0 would show as an error >= 3e-7); float32 / complex64 / integer "
+                     "forms use dyadic moduli so that the element type holds the normalised vector exactly (the library "
+                     "rejects |norm^2 - 1| > 1e-10); static / gate-object call forms are oracle-only (no per-level trace)")
+    _diversity_element_types(ctx, pr, r)
+    _diversity_scale(ctx, pr, r)
+    _diversity_phase(ctx, pr, r)
+    _diversity_products(ctx, pr, r)
+    _diversity_mux_patterns(ctx, pr, r)
+    _diversity_call_forms(ctx, pr, r)
+
+
 def run(ctx, nmax_tie=None, nmax_or=None, per_t=None):
     r = ctx.nprng()
     regression_probes(ctx)
@@ -694,6 +1441,7 @@ def run(ctx, nmax_tie=None, nmax_or=None, per_t=None):
     ctx.notes.append("generated amplitudes are exactly 0 or of modulus >= 1e-2/sqrt(N); UCGE tie cases whose operator "
                      "entries differ by 1e-10..1e-4 (np.allclose band) are skipped and counted")
     boundary_run(ctx, r)
+    _diversity_run(ctx)
     for n in range(1, nmax_or + 1):
         ts = list(range(2 ** n))
         if n >= 5 and ctx.quick:
@@ -730,6 +1478,9 @@ def search(ctx, hints):
 def replay(ctx, payload):
     rp = payload["replay"]
     v = np.array([complex(a, b) for a, b in rp["vector"]])
+    if rp.get("div"):
+        _diversity_case(ctx, rp["call"], rp["n"], rp["t"], rp["preserve"], v, rp["div"], rp.get("family", "replay"), do_tie=False)
+        return
     if rp.get("form"):
         entry_case(ctx, rp["call"], rp["n"], rp["t"], rp["preserve"], rp.get("family", "replay"), v, rp["form"], rp.get("wires"))
         return
